@@ -640,7 +640,7 @@ def check_calc_topology(ctx, kind, arg, ncmd, nmal, rng, corpus_cmds=(), nstdin=
             if r < 0.34:
                 cross_largest(ctx, tool, ref, kind, arg, base)
             elif r < 0.67:
-                d, ty = rng.choice(info.usable_levels())
+                d, ty = rng.choice(info.output_levels())
                 cross_N_I(ctx, tool, kind, arg, base, G.type_spelling(rng, info, d, ty))
             else:
                 cross_single(ctx, tool, ref, kind, arg, base)
@@ -711,7 +711,7 @@ def args_to_ast(info, ref, args):
     out = ("set",)
     i = 0
 
-    def level_of(name):
+    def level_of(name, out=False):
         if name.isdigit():
             d = int(name)
             return (d, info.level_type.get(d)) if 0 <= d < info.depth else None
@@ -720,7 +720,7 @@ def args_to_ast(info, ref, args):
         if not m or int(m.group(1)) < 0:
             return None
         d = int(m.group(3))
-        return (d, int(m.group(2))) if (d >= 0 or d == -3) else None
+        return (d, int(m.group(2))) if (d >= 0 or d == -3 or (out and d <= -3)) else None
     while i < len(args):
         a = args[i]
         if a in OPT_WITH_VALUE:
@@ -729,7 +729,7 @@ def args_to_ast(info, ref, args):
             v = args[i + 1]
             ast.append(("opt", a, v))
             if a in ("-I", "--intersect", "-N", "--number-of"):
-                lv = level_of(v)
+                lv = level_of(v, out=True)
                 if not lv:
                     return None
                 out = ("I" if a in ("-I", "--intersect") else "N", v, lv[0])
@@ -1503,6 +1503,16 @@ def check(run, replay=None):
         for r, s in [("0xff", "group:2 pack:2 core:2 pu:2"), ("0xf/1", "group:2 pack:2 core:2 pu:2"), ("0x3", "pack:2 core:2 pu:2"),
                      ("0xf0", "group:2 group:2 pack:2 pu:2"), ("0x33/1", "pack:2 [numa] l2:2 core:1 pu:2"), ("0xf", "numa:2 group:2 core:2 pu:1")]:
             topos.append(("synthetic@" + r, s))
+        # memory-side caches: in front of some but not all nodes of an attach point, several nodes per attach point,
+        # CPU-less nodes behind a cache (restrict), and the XML of the test suite
+        for s in ["pack:2 [numa(memorysidecachesize=268435456)] [numa] core:2 pu:2", "pack:2 [numa(memorysidecachesize=1048576)] core:2 pu:2",
+                  "numa:2(memorysidecachesize=1048576) core:2 pu:1", "pack:2 [numa] [numa(memorysidecachesize=4096)] die:2 [numa(memorysidecachesize=8192)] pu:2"]:
+            topos.append(("synthetic", s))
+        topos.append(("synthetic@0x3", "pack:2 [numa(memorysidecachesize=1048576)] [numa] core:2 pu:2"))
+        topos.append(("synthetic@0x30", "pack:2 [numa] [numa(memorysidecachesize=4096)] die:2 [numa(memorysidecachesize=8192)] pu:2"))
+        msc = os.path.join(C.REPO, "tests/hwloc/xml/memorysidecaches.xml")
+        if os.path.exists(msc):
+            topos.append(("xml", msc))
         # an asymmetric topology (XML): the restrict removes the whole Group level even with KEEP_ALL filters
         irr = os.path.join(C.REPO, "tests/hwloc/xml/irregulargroups-disallowed.xml")
         if os.path.exists(irr):
